@@ -829,8 +829,9 @@ impl SubRule {
                     self.variables.borrow_mut().clear();
                     match self.insertion_match(&res_word, pos)? {
                         Some(ins) => {                                    
-                            if self.insertion_match_exceptions(word, ins)? {
-                                pos.increment(word);
+                            // the insertion point was found in the word as already extended by earlier insertions: the exception is about that word too
+                            if self.insertion_match_exceptions(&res_word, ins)? {
+                                pos.increment(&res_word);
                                 continue;
                             }
                             let (res, next_pos) = self.insert(&res_word, ins, is_context_after)?;
